@@ -4,12 +4,12 @@ package config
 
 // Contracts for package config (comment-only; checked by /verif/engine).
 
-//@ func IsEnumAction
+//@ func IsEnumAction(s)
 //@   props C08 C12
 //@   pure
 //@   ensures result == strings.HasPrefix(s, "@")
 
-//@ func validateEnumAction
+//@ func validateEnumAction(s)
 //@   props C08 C12
 //@   ensures (result == nil) == (s == "@panic" || s == "@error" || s == "@ignore")
 
@@ -23,7 +23,7 @@ package config
 
 // parseCommon: for each of the inheritable keys exactly which fields change and to what (frame + value);
 // an unknown or empty key and a malformed value are errors; the wrapErrors/wrapErrorsUsing conflict is an error.
-//@ func parseCommon
+//@ func parseCommon(c, cmd, rest)
 //@   props C12 C10 C11 C13
 //@   requires@C13 c != nil
 //@   assigns c.*
@@ -81,11 +81,11 @@ package config
 //@   ensures cmd == "arg:context:regex" && !parse.StringOK(rest) ==> err != nil
 
 // ---- C09 ----
-//@ func parseMethods
+//@ func parseMethods(ctx, rawConverter, c)
 //@   props C09
 //@   maprange 2 unordered-result names
 
-//@ func getPackages
+//@ func getPackages(raw)
 //@   props C09 C15
 //@   maprange 3 unordered-result pkgs
 // C15: for EVERY converter the packages named by its own lines and by the global lines are loaded (the existing
@@ -97,20 +97,20 @@ package config
 // registerMethodLines only inserts package paths that are a function of its arguments (it never reads or
 // deletes from lookup). Stated with a ghost set; ASSUMED (trusted), listed in the evidence.
 //@ ghost MethodLinePkgs(sourcePackage string, lines RawLines) map[string]bool
-//@ func registerMethodLines
+//@ func registerMethodLines(lookup, sourcePackage, lines)
 //@   props C09
 //@   trusted
 //@   requires@C13 lookup != nil
 //@   assigns map(lookup)
 //@   ensures forall k string :: has(lookup, k) == (old(has(lookup, k)) || has(MethodLinePkgs(sourcePackage, lines), k))
 
-//@ func ConverterConfig.PackageID
+//@ func ConverterConfig.PackageID(conf; )
 //@   props C15 C13
 //@   pure
 //@   requires@C13 conf != nil
 //@   ensures result == ite(conf.OutputPackageName == "", conf.OutputPackagePath, conf.OutputPackagePath + ":" + conf.OutputPackageName)
 
-//@ func parseMethodMap
+//@ func parseMethodMap(remaining)
 //@   props C13
 
 // ---- C15 / C12: converter-level settings ----
@@ -120,7 +120,7 @@ package config
 // with this converter's own Common.
 //@ pred ConverterKey(cmd string) bool = cmd == "converter" || cmd == "variables" || cmd == "name" || cmd == "output:raw" || cmd == "output:file"
 //@     || cmd == "output:format" || cmd == "output:package" || cmd == "struct:comment" || cmd == "enum:exclude" || cmd == "extend"
-//@ func parseConverterLine
+//@ func parseConverterLine(ctx, c, value)
 //@   props C15 C12 C14
 //@   propagates
 //@   at@C15 return assert cmd == parse.CmdName(value) && rest == parse.CmdRest(value)
@@ -141,30 +141,30 @@ package config
 //@           && arg2.OutputPackagePath == c.OutputPackagePath && arg0 == c.Package && arg1 == name
 //@   loop 1 invariant c.OutputFile == old(c.OutputFile) && c.OutputPackagePath == old(c.OutputPackagePath) && c.OutputPackageName == old(c.OutputPackageName)
 
-//@ func Converter.requireStruct
+//@ func Converter.requireStruct(c; )
 //@   props C12
 //@   pure
 //@   ensures (result == nil) == (c.OutputFormat == FormatStruct)
 
-//@ func Converter.typeForMethod
+//@ func Converter.typeForMethod(c; )
 //@   pure
 
 // ---- C12: the order in which the levels are applied: defaults, then the global (-g) lines, then the
 // ---- converter's own lines (parseConverter); a method starts from a copy of its converter's Common and
 // ---- applies its own lines in order (parseMethod). A method line never changes the converter. ----
-//@ func initConverter
+//@ func initConverter(loader, rawConverter)
 //@   props C12 C15
 //@   propagates
 //@   ensures@C12 err == nil ==> same(result0.Common, DefaultCommon)
 //@   ensures@C15 err == nil && rawConverter.InterfaceName != "" ==> result0.OutputFile == "./generated/generated.go" && result0.OutputPackagePath == "" && result0.OutputPackageName == ""
 //@   ensures@C15 err == nil && rawConverter.InterfaceName == "" ==> result0.OutputFile == defaultOutputFile(rawConverter.FileName) && result0.OutputPackagePath == rawConverter.PackagePath && result0.OutputPackageName == rawConverter.PackageName
 
-//@ func defaultOutputFile
+//@ func defaultOutputFile(name)
 //@   props C15
 //@   pure
 //@   ensures result == strings.TrimSuffix(filepath.Base(name), filepath.Ext(filepath.Base(name))) + ".gen" + filepath.Ext(filepath.Base(name))
 
-//@ func parseConverter
+//@ func parseConverter(ctx, rawConverter, global)
 //@   props C12 C15
 //@   propagates
 //@   at@C12 call parseConverterLines#1 assert arg1 == c && arg2 == "global" && same(arg3, global)
@@ -172,13 +172,13 @@ package config
 //@   at@C15 call resolveOutputPackage#1 assert arg1 == c
 //@   at@C12 call parseMethods#1 assert arg2 == c
 
-//@ func parseConverterLines
+//@ func parseConverterLines(ctx, c, source, raw)
 //@   props C12
 //@   propagates
 //@   at@C12 call parseConverterLine#1 assert arg1 == c && arg2 == raw.Lines[idx]
 
 // an explicit output:package path / name is never overridden by the inferred one
-//@ func resolveOutputPackage
+//@ func resolveOutputPackage(ctx, c)
 //@   props C15
 //@   ensures old(c.OutputPackagePath) != "" ==> c.OutputPackagePath == old(c.OutputPackagePath)
 //@   ensures old(c.OutputPackageName) != "" ==> c.OutputPackageName == old(c.OutputPackageName)
@@ -187,7 +187,7 @@ package config
 //@ pred MethodKey(cmd string) bool = cmd == "map" || cmd == "ignore" || cmd == "update" || cmd == "context" || cmd == "enum:map"
 //@     || cmd == "enum:transform" || cmd == "autoMap" || cmd == "default"
 
-//@ func parseMethod
+//@ func parseMethod(ctx, c, obj, rawMethod)
 //@   props C12 C14
 //@   at@C12 call parseMethodLine#1 assert arg1 == c && arg2 == m && arg3 == rawMethod.Lines[idx]
 //@   at@C14,C12 call method.Parse#1 assert arg0 == obj && arg1.UpdateParam == m.updateParam && arg1.ContextMatch == m.ArgContextRegex && same(arg2, m.localOpts)
@@ -197,7 +197,7 @@ package config
 //@   ensures@C12 len(rawMethod.Lines) == 0 ==> same(result0.Common, old(c.Common))
 //@   ensures@C12 same(c.Common, old(c.Common))
 
-//@ func parseMethodLine
+//@ func parseMethodLine(ctx, c, m, value)
 //@   props C12 C14 C08 C10 C05 C06
 //@   propagates
 // C08: every enum:map line is recorded (identical names included: it pins the member against transformers)
@@ -222,11 +222,11 @@ package config
 //@   loop@C14 1 invariant forall k string :: has(m.localOpts.Context, k) == old(has(m.localOpts.Context, k))
 //@   loop@C10,C05 1 invariant forall k string :: old(has(m.Fields, k)) ==> has(m.Fields, k) && m.Fields[k] == old(m.Fields[k])
 
-//@ func formatLineError
+//@ func formatLineError(lines, t, value, err)
 //@   props C12
 //@   ensures result != nil
 
-//@ func Method.Field
+//@ func Method.Field(m; targetName)
 //@   props C05 C12 C10
 //@   assigns map(m.Fields)
 //@   ensures has(m.Fields, targetName) && result == m.Fields[targetName]
@@ -234,7 +234,7 @@ package config
 
 // C15: the package of an output file is the directory of that file, taken relative to the declaring file's
 // package path (an absolute output path is first made relative to the directory of the declaring file)
-//@ func resolvePackage
+//@ func resolvePackage(sourceFileName, sourcePackage, targetFile)
 //@   props C15
 //@   ensures !filepath.IsAbs(targetFile) ==> err == nil && result == filepath.Dir(filepath.Join(sourcePackage, targetFile))
 //@   ensures filepath.IsAbs(targetFile) && err == nil ==> result == filepath.Dir(filepath.Join(sourcePackage, fst(filepath.Rel(filepath.Dir(sourceFileName), targetFile))))
